@@ -25,9 +25,9 @@ from pathlib import Path
 from . import core
 
 MARK = "# paroxython:"
-SIG_TIE = "C12:label opened for addition and for deletion on the same line (max() ties on HintBuffer)"
-SIG_BLANK = "C12:leading or trailing blank line before/after hinted code (hints numbered before strip)"
-SIG_MARKER = "C12:non-normalised hint marker given to get_program/tag (no cleaning step)"
+SIG_RESIDUAL = ("C12:hint alone on a line before a leading (after a trailing) blank line: the blank line is numbered "
+                "but stripped from the stored source")
+# kept for C02's import; the findings they named are repaired, a recurrence is an unknown violation
 SIG_WHOLESPAN = "C12:deletion hint on the computed label whole_span:N (aggregate SQL query yields a NULL span)"
 
 
@@ -141,12 +141,11 @@ class Judge:
             return None
         if got == {"exc": "ValueError"}:
             return None
-        sig = SIG_TIE if not sm["tiefree"] else None
         return {
             "what": "malformed hint comment (rejected token or unbalanced marks) not rejected with ValueError",
-            "signature": sig,
-            "replay": {"kind": "malformed", "src": src, "impl": got, "spec": {"malformed": True, "expected": {"exc": "ValueError"},
-                       "tiefree": sm["tiefree"]}, "how": "get_program(src)"},
+            "signature": None,
+            "replay": {"kind": "malformed", "src": src, "impl": got, "spec": {"malformed": True, "expected": {"exc": "ValueError"}},
+                       "how": "get_program(src)"},
         }
 
     def report_disagreement(self, stream, src, got, model):
@@ -195,7 +194,7 @@ def stream_regexes(ctx, impl, drv):
 
     def iso(l):
         m = impl.match_isolated(l)
-        return None if m is None else m[1]
+        return None if m is None else (m[1] or "")
 
     checks.append(("regex:match_isolated_hints", lines, r, iso))
     r = drv.call("c12.hint_tokens", lines=lines)["r"]
@@ -208,6 +207,14 @@ def stream_regexes(ctx, impl, drv):
     texts = list(seqs([" ", "\n", "\t", MARK + " ", MARK, "x", "#", "\x1c"], n + 1))
     r = drv.call("c12.remove_hints", srcs=texts)["r"]
     checks.append(("regex:sub_hints+strip", texts, r, lambda s: str(impl.ps.remove_hints(s))))
+    norm_in = list(seqs(["#", " ", "\t", "paroxython", "PaRoxYthoN", "parox", ":", "x", "p", "\x1c", MARK + " "], n + 1 if ctx.tier == "quick" else n))
+    r = drv.call("c12.norm_line", lines=norm_in)["r"]
+    normalize = impl.ps.Cleanup.normalize_paroxython_comments
+    checks.append(("regex:normalize_paroxython_comments", norm_in, r, lambda l: normalize(l)[0]))
+    trim_in = list(seqs([" ", "\n", "\t", "x", "\x1c", "\r", "#"], n + 2 if ctx.tier == "quick" else n + 1))
+    r = drv.call("c12.trim_ends", srcs=trim_in)["r"]
+    trim = impl.regex.compile(r"\A(\s*\n)+|\s+\Z").sub
+    checks.append(("regex:trim_blank_ends(transcribed from get_program)", trim_in, r, lambda t: trim("", t)))
     cents = list(seqs(["\n", " ", MARK + " ", MARK, "x", "b", "a", " # x", "…"], n + 1))
     r = drv.call("c12.centrifugate", srcs=cents)["r"]
 
@@ -298,10 +305,6 @@ def stream_layouts(ctx, impl, drv, judge):
         ctx.dist("layouts-bx:malformed")
         g = impl.get_program(s)
         if g != {"exc": "ValueError"}:
-            if not spec["tiefree"]:
-                ties += 1
-                if ties > 1:
-                    continue
             v = judge.malformed_verdict(s, g)
             if v is not None:
                 add_violation(ctx, v)
@@ -309,7 +312,7 @@ def stream_layouts(ctx, impl, drv, judge):
 
 
 LABELS = ["foo", "bar:baz", "a/b", "x.y", "l_1", "if", "loop:for", "meta/topic/fun", "A", "0",
-          "a...b", "x…y", "f(x)", "a#b", "a+b", "a-b", "_"]
+          "a...b", "x…y", "f(x)", "a+b", "a-b", "_", "paroxython:x"]
 CODE = ["x = 1", "y = x + 1", "print(x)", "for i in range(3):", "    pass", "if x:", "    y = 2", "", "def f(a):",
         "    return a", "z = [1, 2]", "while x: x -= 1", "s = '# not a hint'", "t = \"...\""]
 
@@ -341,6 +344,21 @@ def gen_forest(rng, lo, hi, depth, main=None):
             out.append(("one", pick(), i))
             line = i
     return out
+
+
+def gen_marker(rng):
+    """A tolerated spelling of the marker (70% the normalised one)."""
+    if rng.random() < 0.7:
+        return None
+    return {"sp1": rng.choice([0, 1, 1, 2, 3]), "caps": rng.choice([0, 0, 1, 1023, rng.randrange(1024)]),
+            "sp2": rng.choice([0, 0, 1, 2]), "after": rng.choice([0, 1, 1, 2, 4])}
+
+
+def with_marker(rng, line):
+    m = gen_marker(rng)
+    if m is not None:
+        line["marker"] = m
+    return line
 
 
 def gen_decorated(rng, base, labels=LABELS, defect=None):
@@ -377,7 +395,7 @@ def gen_decorated(rng, base, labels=LABELS, defect=None):
             iso_at.setdefault(rng.randint(0, n), []).append(L)
     for i in range(0, n + 1):
         for L in iso_at.get(i, []):
-            lines.append({"isolated": L, "indent": rng.choice([0, 0, 4, 1])})
+            lines.append(with_marker(rng, {"isolated": L, "indent": rng.choice([0, 0, 4, 1])}))
         if i == n:
             break
         groups = [list(g) for g in per_line[i + 1]]
@@ -393,7 +411,10 @@ def gen_decorated(rng, base, labels=LABELS, defect=None):
         code = base[i]
         if hints and code.strip() == "":
             hints = []  # a blank code line cannot carry trailing hints (it would be an isolated hint)
-        lines.append({"code": code, "pad": rng.choice([0, 0, 1, 3]), "hints": hints})
+        lines.append(with_marker(rng, {"code": code, "pad": rng.choice([0, 0, 1, 3]), "hints": hints}))
+    blank = {"code": "", "pad": 0, "hints": []}
+    if rng.random() < 0.3:  # blank lines at both ends of the text are trimmed before the hints are numbered
+        lines = [dict(blank)] * rng.choice([0, 1, 2]) + lines + [dict(blank)] * rng.choice([0, 1, 3])
     return lines
 
 
@@ -519,47 +540,47 @@ def stream_decorated(ctx, impl, drv, judge, real_programs):
 
 
 def stream_blank_ends(ctx, impl, drv, judge):
-    """Finding 7 seen from C12: a hint at the end of code line i must refer to the line of the
-    stored listing that holds that code. Blank lines before the first / after the last code line are
-    stripped from the stored source but counted by the hint numbering."""
-    n = 60 if ctx.tier == "quick" else 600
+    """Blank lines at the ends of the text (repaired finding 7) and its residue: a hint alone on a
+    line standing before the leading (after the trailing) blank lines. A hint must refer to the lines
+    of the stored listing: the answer must be that of the same program without those blank lines."""
+    n = 80 if ctx.tier == "quick" else 800
     hits = 0
+    blank = {"code": "", "pad": 0, "hints": []}
     for _ in range(n):
         rng = ctx.rng
         base = [rng.choice([c for c in CODE if c.strip() and c[0] != " "]) for _ in range(rng.randint(1, 3))]
-        inner = gen_decorated(rng, base, labels=LABELS[:6])
-        lead = rng.choice([0, 1, 2])
-        trail = rng.choice([0, 1, 2]) if lead == 0 else rng.choice([0, 0, 1])
-        if lead == 0 and trail == 0:
-            lead = 1
-        layout = [{"code": "", "pad": 0, "hints": []}] * lead + inner + [{"code": "", "pad": 0, "hints": []}] * trail
-        spec_in = drv.call("c12.spec_decorate", lines=inner)
-        exp = expected_of(spec_in) if spec_in["hygienic"] else None
+        inner = [l for l in gen_decorated(rng, base, labels=LABELS[:6]) if not (l.get("code") == "" and not l.get("hints"))]
+        lead, trail = rng.choice([0, 1, 2]), rng.choice([0, 0, 1, 2])
+        outer_before = [{"isolated": "outer", "indent": 0}] if rng.random() < 0.3 else []
+        outer_after = [{"isolated": "outer", "indent": 0}] if rng.random() < 0.3 else []
+        layout = outer_before + [dict(blank)] * lead + inner + [dict(blank)] * trail + outer_after
+        reference = outer_before + inner + outer_after
+        spec_ref = drv.call("c12.spec_decorate", lines=reference)
+        exp = expected_of(spec_ref) if spec_ref["hygienic"] else None
         spec = drv.call("c12.spec_decorate", lines=layout)
         src = spec["src"]
         got = impl.get_program(src)
         model = canon_model_program(drv.call("c12.get_program", srcs=[src])["r"][0])
-        has_hint = any(l.get("hints") for l in inner) or any("isolated" in l for l in inner)
+        has_hint = any(l.get("hints") for l in layout) or any("isolated" in l for l in layout)
         ctx.count("blank-ends", src, nontrivial=has_hint)
         if got != model:
             judge.report_disagreement("blank-ends", src, got, model)
-        if exp is not None and has_hint and got != exp:
+        if exp is not None and got != exp:
+            residual = (bool(outer_before) and lead > 0) or (bool(outer_after) and trail > 0)
             hits += 1
-            if hits == 1:
-                ctx.violations.append({
-                    "what": "hints of a program with blank lines before its first / after its last code line are not "
-                            "scheduled on the lines of the stored listing",
-                    "signature": SIG_BLANK,
-                    "replay": {"kind": "blank-ends", "layout": layout, "src": src, "impl": got, "model": model,
-                               "spec": exp, "how": "get_program(src) vs get_program of the same program without the blank ends"},
-                })
+            add_violation(ctx, {
+                "what": "hints of a program with blank lines at the ends of its text are not scheduled on the lines of "
+                        "the stored listing",
+                "signature": SIG_RESIDUAL if residual else None,
+                "replay": {"kind": "blank-ends", "layout": layout, "src": src, "impl": got, "model": model,
+                           "spec": exp, "how": "get_program(src) vs get_program of the same program without the blank end lines"},
+            }, per_sig=1)
     ctx.dist("blank-ends:property-failures", hits)
 
 
 def stream_marker_spelling(ctx, impl, drv, judge):
-    """Finding 16: the manual tolerates `#  Paroxython :`; normalisation exists only in full cleaning."""
-    cases = ["x = 1 # Paroxython : foo", "x = 1 #paroxython: foo", "x = 1 #  PAROXYTHON  :   foo"]
-    hits = 0
+    """The manual tolerates `#  Paroxython :` (repaired finding 16)."""
+    cases = ["x = 1 # Paroxython : foo", "x = 1 #paroxython: foo", "x = 1 #  PAROXYTHON  :   foo", "x = 1 #paroxython:foo"]
     for src in cases:
         got = impl.get_program(src)
         model = canon_model_program(drv.call("c12.get_program", srcs=[src])["r"][0])
@@ -568,15 +589,12 @@ def stream_marker_spelling(ctx, impl, drv, judge):
             judge.report_disagreement("marker-spelling", src, got, model)
         exp = {"source": "x = 1", "addition": {"foo": [[1, 1]]}, "deletion": {}}
         if got != exp:
-            hits += 1
-            if hits == 1:
-                ctx.violations.append({
-                    "what": "a hint whose marker is spelled with the case/space tolerance of the manual is neither "
-                            "scheduled nor removed by get_program (and hence by `tag`)",
-                    "signature": SIG_MARKER,
-                    "replay": {"kind": "marker", "src": src, "impl": got, "model": model, "spec": exp,
-                               "how": "get_program(src)"},
-                })
+            add_violation(ctx, {
+                "what": "a hint whose marker is spelled with the case/space tolerance of the manual is not scheduled "
+                        "and removed like the normalised spelling",
+                "signature": None,
+                "replay": {"kind": "marker", "src": src, "impl": got, "model": model, "spec": exp, "how": "get_program(src)"},
+            })
 
 
 # ----------------------------------------------------------------------------------- end to end
@@ -726,7 +744,7 @@ def stream_end_to_end(ctx, impl, drv, judge, real_programs):
             dels = [k for k, _ in deletion]
             add_violation(ctx, {
                 "what": "ProgramParser raises on a valid program with well-formed hints instead of returning its labels",
-                "signature": SIG_WHOLESPAN if any(k.startswith("whole_span:") for k in dels) else None,
+                "signature": None,
                 "replay": {"kind": "parser-crash", "layout": lines, "src": src, "impl": {"exc": repr(e)},
                            "spec": "labels = (computed - scheduled deletions) + additions, then derivations",
                            "how": "ProgramParser()(get_program(src))"},
@@ -860,14 +878,13 @@ def run(ctx):
         "characters for str.isspace / regex \\s / regex \\w (checked on every generated text)",
     ]
     ctx.assumptions += [
-        "C12_roundtrip: code lines are single lines without `# paroxython:` and without trailing white space; labels start "
-        "with a word character, contain no white space, do not end with an ellipsis; first code line not blank nor "
-        "indented, last code line not blank (forced by finding 7); marks properly nested per label (LIFO reading); no label "
-        "opened for addition and deletion on one line (finding 13)",
-        "C12_malformed_partial: no label opened for addition and deletion on one line",
+        "C12_roundtrip: code lines are single lines without any look-alike of the marker and without trailing white space; "
+        "labels start with a word character, contain no white space and no `#`, do not end with an ellipsis; after the "
+        "blank ends of the text are trimmed, the first code line is neither blank nor indented and the last one is not "
+        "blank (residual finding: a hint alone on a line before/after a blank end line); marks properly nested per label "
+        "(LIFO reading); no label opened for addition and deletion on one line (the code closes the addition first)",
         "C12_deletion_exact: the deletion schedule is a dictionary (distinct names) — proved of every get_program output "
         "(C12_schedule_shape)",
-        "the marker is the normalised `# paroxython:` (normalisation is the cleaning step's, C13; finding 16)",
     ]
     ctx.cov["proved"] = [t.split(".")[-1] for t in ctx.cov.get("theorems", {})]
     ctx.cov["exercised_only"] = [
